@@ -234,96 +234,40 @@ def run(ctx, report: Report) -> None:
             r2.violation(f'{tok}:{grp} {d[0]} {d[1]!r}', t.where,
                          f'group {grp} of {tok} and (RE_NTH|even|odd) disagree on {d[1]!r}')
 
-    # ---- R3 ---------------------------------------------------------------------------------------------------
-    r3 = report.rule('C02-R3', 'keyword forms build the records of the named An+B instances', floor=10)
-    cmod, cfn = src.func('css_parser.CSSParser.parse_pseudo_class')
+    # ---- R3 (tables by partial evaluation of parse_pseudo_nth / parse_pseudo_class) ------------------------
+    r3 = report.rule('C02-R3', 'every An+B spelling and keyword form builds the record of the An+B it denotes', floor=40)
+    from .sem import nth_table
+    from ..interp import Obj, Raised, call_function
+    from ..miniev import Unsupported
+    from ..tables import fresh_sel, match_obj, parser_obj
+    nth_table(ctx, r3)
+    pmod, pfn = src.func('css_parser.CSSParser.parse_pseudo_nth')
+    kw = {':first-child': [(1, False, 0, False, False)], ':last-child': [(1, False, 0, False, True)],
+          ':first-of-type': [(1, False, 0, True, False)], ':last-of-type': [(1, False, 0, True, True)],
+          ':only-child': [(1, False, 0, False, False), (1, False, 0, False, True)],
+          ':only-of-type': [(1, False, 0, True, False), (1, False, 0, True, True)]}
+    for name, exp in kw.items():
+        for spelled in (name, name.upper()):
+            rec = []
 
-    def nth_records(body):
-        out = []
-        for c in [c for st in body for c in ast.walk(st) if isinstance(c, ast.Call)]:
-            if src.resolve_class_ref(cmod, c.func) == 'css_types.SelectorNth':
-                out.append(c)
-        return out
-
-    def expected_flags(name):
-        of_type = name.endswith('of-type')
-        if 'only' in name:
-            return [(of_type, False), (of_type, True)]
-        return [(of_type, 'last' in name)]
-
-    found = {}
-    for node in ast.walk(cfn):
-        if isinstance(node, ast.If) and isinstance(node.test, ast.Compare) and len(node.test.ops) == 1 \
-                and isinstance(node.test.ops[0], ast.Eq) and isinstance(node.test.comparators[0], ast.Constant) \
-                and isinstance(node.test.comparators[0].value, str):
-            name = node.test.comparators[0].value
-            recs = nth_records(node.body)
-            if recs:
-                found[name] = (node, recs)
-    for name in (':first-child', ':last-child', ':first-of-type', ':last-of-type', ':only-child', ':only-of-type'):
-        if name not in found:
-            raise AnalysisError(f'parse_pseudo_class: branch building SelectorNth for {name} not found')
-    for name, (node, recs) in sorted(found.items()):
-        got = []
-        for c in recs:
-            vals = [inv.folder.try_ev('css_parser', a, default='?') for a in c.args[:5]]
-            got.append(tuple(vals))
-        exp = [(1, False, 0, ot, la) for ot, la in expected_flags(name)]
-        ok = sorted(map(repr, got)) == sorted(map(repr, exp))
-        r3.instance({'pseudo': name, 'records': [list(g) for g in got], 'expected': [list(e) for e in exp]}, key=name)
-        r3.obligation(ok)
-        if not ok:
-            r3.violation(f'parse_pseudo_class {name}', cmod.where(node),
-                         f'{name} builds nth records {got}, the An+B instance it names is {exp} (a, n, b, of_type, last)')
-    # functional forms
-    fnodes = {}
-    for node in ast.walk(pfn):
-        if isinstance(node, ast.If) and isinstance(node.test, ast.Compare) and len(node.test.ops) == 1 \
-                and isinstance(node.test.comparators[0], ast.Constant) and isinstance(node.test.comparators[0].value, str):
-            name = node.test.comparators[0].value
-            recs = [c for st in node.body for c in ast.walk(st) if isinstance(c, ast.Call)
-                    and src.resolve_class_ref(pmod, c.func) == 'css_types.SelectorNth']
-            if recs and name.startswith(':nth'):
-                fnodes[name] = (node, recs)
-    abn_names = None
-    for name in (':nth-child', ':nth-last-child', ':nth-of-type', ':nth-last-of-type'):
-        if name not in fnodes:
-            raise AnalysisError(f'parse_pseudo_nth: branch building SelectorNth for {name} not found')
-        node, recs = fnodes[name]
-        c = recs[0]
-        flags = tuple(inv.folder.try_ev('css_parser', a, default='?') for a in c.args[3:5])
-        exp = expected_flags(name)[0]
-        r3.instance({'pseudo': name, 'of_type,last': list(flags), 'expected': list(exp)}, key=name)
-        r3.obligation(flags == exp and len(recs) == 1)
-        if flags != exp or len(recs) != 1:
-            r3.violation(f'parse_pseudo_nth {name}', pmod.where(node),
-                         f'{name} builds (of_type, last) = {flags}, expected {exp}')
-        names = tuple(unparse(a) for a in c.args[:3])
-        if abn_names is None:
-            abn_names = names
-        elif names != abn_names:
-            r3.violation(f'parse_pseudo_nth {name} args', pmod.where(c),
-                         f'{name} passes (a, n, b) = {names}, its siblings pass {abn_names}')
-    # even / odd
-    if abn_names:
-        a_var, n_var, b_var = abn_names
-        for kw, exp in (('even', (2, True, 0)), ('odd', (2, True, 1))):
-            hit = None
-            for node in ast.walk(pfn):
-                if isinstance(node, ast.If) and isinstance(node.test, ast.Compare) \
-                        and isinstance(node.test.comparators[0], ast.Constant) and node.test.comparators[0].value == kw:
-                    hit = node
-            if hit is None:
-                raise AnalysisError(f"parse_pseudo_nth: branch for '{kw}' not found")
-            env = {}
-            for st in hit.body:
-                if isinstance(st, ast.Assign) and isinstance(st.targets[0], ast.Name):
-                    env[st.targets[0].id] = inv.folder.try_ev('css_parser', st.value, default='?')
-            got = (env.get(a_var, '?'), env.get(n_var, '?'), env.get(b_var, '?'))
-            r3.instance({'keyword': kw, '(a,n,b)': list(got), 'expected': list(exp)}, key=kw)
-            r3.obligation(got == exp)
-            if got != exp:
-                r3.violation(f'parse_pseudo_nth {kw}', pmod.where(hit), f"'{kw}' sets (a, n, b) = {got}, expected {exp}")
+            def rec_nth(a_, n_, b_, ot, la, sel_, _r=rec):
+                _r.append((a_, n_, b_, ot, la))
+                return Obj(_name='SelectorNth')
+            sel = fresh_sel()
+            m = match_obj({'name': spelled, 'open': None})
+            try:
+                call_function(ctx, 'css_parser.CSSParser.parse_pseudo_class', [sel, m, False, iter(()), False], {},
+                              {'ct.SelectorNth': rec_nth}, parser_obj())
+            except Raised as e:
+                rec.append(f'raises {e.exc_name}')
+            except Unsupported as e:
+                raise AnalysisError(f'parse_pseudo_class: outside the evaluable fragment: {e}')
+            ok = sorted(map(repr, rec)) == sorted(map(repr, exp))
+            r3.instance({'pseudo_class': spelled, 'records': rec, 'expected': exp}, key=spelled, sample_cap=3)
+            r3.obligation(ok)
+            if not ok:
+                r3.violation(f'parse_pseudo_class {name}', 'soupsieve/css_parser.py (parse_pseudo_class)',
+                             f'{spelled} builds nth records {rec}; the An+B instance it names is {exp} (a, n, b, of_type, last)')
 
     # ---- R4 ---------------------------------------------------------------------------------------------------
     r4 = report.rule('C02-R4', '-of-type equality = name AND namespace; every SelectorNth field is read', floor=7)
